@@ -13,7 +13,7 @@ def corpus(tier, rng):
     q = tier == "quick"
     n = 40 if q else 400
     specs = families.goldens() + families.c01_core()
-    for g in (families.gen_c01, families.gen_shape, families.gen_occ, families.gen_flat, families.gen_affine_plain, families.gen_conv,
+    for g in (families.gen_c01, families.gen_shape, families.gen_occ, families.gen_flat, families.gen_flat3, families.gen_affine_plain, families.gen_conv,
               families.gen_cascade, families.gen_st):
         specs += sample(g, rng, n)
     return specs
